@@ -13,6 +13,7 @@ package main
 
 import (
 	"fmt"
+	"go/token"
 	"go/types"
 
 	"golang.org/x/tools/go/ssa"
@@ -361,4 +362,66 @@ func reachAfter(a, b ssa.Instruction, cut []Edge) []*ssa.BasicBlock {
 		}
 	}
 	return nil
+}
+
+// checkNilPhiDerefs (R-C): a pointer variable that is nil on some path - a phi
+// with a nil-constant operand, "var x *T; if ok { x = ... }" - is dereferenced
+// only where that path cannot arrive: the dereference is not reachable from the
+// entry along a path on which the phi received nil (the search follows the
+// outcomes of the tests taken, so "if x != nil" and error tests that share a
+// condition with the assignment both count).
+func (c *Ctx) checkNilPhiDerefs(rule string, fns []*ssa.Function) {
+	p := c.P
+	n := 0
+	for _, fn := range fns {
+		allInstrs(fn, func(in ssa.Instruction) {
+			ph, ok := in.(*ssa.Phi)
+			if !ok {
+				return
+			}
+			if _, isPtr := ph.Type().Underlying().(*types.Pointer); !isPtr {
+				return
+			}
+			hasNil := false
+			for _, e := range ph.Edges {
+				if isNilConst(e) {
+					hasNil = true
+				}
+			}
+			if !hasNil || ph.Referrers() == nil {
+				return
+			}
+			for _, r := range *ph.Referrers() {
+				deref := false
+				switch x := r.(type) {
+				case *ssa.UnOp:
+					deref = x.Op == token.MUL && x.X == ssa.Value(ph)
+				case *ssa.FieldAddr:
+					deref = x.X == ssa.Value(ph)
+				case ssa.CallInstruction:
+					// a method call with the pointer as receiver of a method that dereferences (conservatively: any
+					// static method of a repository or library type is taken to dereference)
+					cm := x.Common()
+					deref = !cm.IsInvoke() && len(cm.Args) > 0 && cm.Args[0] == ssa.Value(ph) && cm.Signature().Recv() != nil
+				}
+				if !deref {
+					continue
+				}
+				n++
+				use := r
+				path := psSearchState(fn.Blocks[0], nil, nil, func(b *ssa.BasicBlock, known map[ssa.Value]bool) bool {
+					if b != use.Block() {
+						return false
+					}
+					isNil, okk := known[ph]
+					return okk && isNil
+				})
+				c.check(path == nil, rule, p.FnName(fn)+" dereferences "+describeOperand(p, ph)+" only where it cannot be nil", p.instrPos(use), "",
+					"the pointer is nil on a path that reaches this dereference (it is only assigned inside a branch, and the test that follows does not cover the other branch): a malformed message ends in a nil dereference", p.pathString(path)...)
+			}
+		})
+	}
+	if n == 0 {
+		c.okTrivial(rule, "dereferences of pointer variables that are nil on some path", "-", "none")
+	}
 }
